@@ -362,6 +362,18 @@ def check_left_inverse(ctx, ir):
 # ============================================================================================
 #  R-C17-3  formulas agree
 # ============================================================================================
+def get_offsets(s, tyname):
+    """[(path guard, base pointer symbol, byte offset term)] of a function that returns a load from an array"""
+    out = []
+    for g, t in s.values('ret'):
+        if not I.is_app(t, 'ld_' + tyname):
+            raise Undecided('result %s is not a load from the value array' % t)
+        out.append((g, t.args[0], t.args[1]))
+    if len({b for _, b, _ in out}) != 1:
+        raise Undecided('the paths load from different arrays')
+    return out
+
+
 def check_formulas(ctx, ir):
     R = 'R-C17-3'
     n = 0
@@ -444,16 +456,15 @@ def check_formulas(ctx, ir):
             continue
         n += 1
         try:
-            t = s.value('ret')
-            if not I.is_app(t, 'ld_' + tyname):
-                ctx.undecided(R, inst, 'result %s is not a load from the value array' % t, A3D)
-                continue
-            base, off = t.args
+            offs = get_offsets(s, tyname)
             idx = S('idx', (0, 4, 8))
             inr = []
             for k in range(3):
                 inr += [I.ilit('sle', 0, idx[k]), I.ilit('sle', idx[k], adims[k] - 1), I.ilit('slt', adims[k] - 1, adims[k])]
-            cs = I.cases(off, assume=inr)
+            cs = []
+            for g, base, off in offs:
+                if I.consistent(list(g) + inr):
+                    cs += I.cases(off, g, assume=inr)
             want = stride * lin(idx, adims)
             bad = [(g, v) for g, v in cs if not I.equal_under(list(g) + inr, v, want)]
             if not cs:
@@ -462,6 +473,8 @@ def check_formulas(ctx, ir):
                 g, v = bad[0]
                 if I.opaque_atoms(v):
                     ctx.undecided(R, inst, 'address %s contains an unproved narrowing' % v, A3D)
+                elif not I.in_order_vocabulary(list(g)):
+                    ctx.undecided(R, inst, 'path condition %s is not a plain coordinate comparison' % ' & '.join(map(str, g)), A3D)
                 else:
                     ctx.violation(R, inst, 'for coordinates inside the extent the byte offset is %s, expected sizeof(T) * (x + dx*(y + dy*z)) = %s'
                                   % (sp.expand(v), sp.expand(want)), A3D, key='%s|%s|ActualArray3D::get|formula' % (R, A3D))
@@ -1011,43 +1024,55 @@ def check_adaptors(ctx, tu):
 
 
 def check_get_clamps(ctx, ir, adims):
+    """every path and select case of the address computed by get() against the per-axis definition
+    clamp(c, 0, dims.c - 1) for all three axes at once (27 region combinations)"""
     R = 'R-C17-5'
-    inst = 'ActualArray3D<float>::get clamping'
-    s = ir.summary(R, inst, 'K_get', A3D)
-    if s is None or adims is None:
-        return
-    try:
-        t = s.value('ret')
-        if not I.is_app(t, 'ld_f32'):
-            ctx.undecided(R, inst, 'result is not a load', A3D)
-            return
-        off = t.args[1]
-        idx = S('idx', (0, 4, 8))
-        names = 'xyz'
-        probs = []
-        for k in range(3):
-            others = []
-            for j in range(3):
-                if j != k:
-                    others += [I.ilit('sle', 0, idx[j]), I.ilit('sle', idx[j], adims[j] - 1)]
-            nonempty = [I.ilit('sle', 0, adims[k] - 1)] + [I.ilit('slt', adims[j] - 1, adims[j]) for j in range(3)]
-            for label, extra, ck in (('below 0', [I.ilit('slt', idx[k], 0)], sp.Integer(0)),
-                                     ('above dims-1', [I.ilit('slt', adims[k] - 1, idx[k])], adims[k] - 1)):
-                A = others + nonempty + extra
-                c = list(idx)
-                c[k] = ck
-                want = 4 * lin(c, adims)
-                for g, v in I.cases(off, assume=A):
-                    if not I.equal_under(list(g) + A, v, want):
-                        if I.opaque_atoms(v):
-                            raise Undecided('address %s contains an unproved narrowing' % v)
-                        probs.append('coordinate %s %s is not clamped to %s: byte offset %s' % (names[k], label, ck, sp.expand(v)))
-        if probs:
-            ctx.violation(R, inst, probs[0], A3D, key='%s|%s|ActualArray3D::get|clamp' % (R, A3D), path=probs)
-        else:
-            ctx.ok(R, inst, 'each coordinate below 0 reads cell 0, above dims-1 reads cell dims-1 (the other two unchanged)', A3D)
-    except Undecided as e:
-        ctx.undecided(R, inst, str(e), A3D)
+    for name, tyname, stride, tn in (('K_get', 'f32', 4, 'float'), ('K_get_d', 'f64', 8, 'double')):
+        inst = 'ActualArray3D<%s>::get clamping' % tn
+        s = ir.summary(R, inst, name, A3D)
+        if s is None or adims is None:
+            continue
+        try:
+            offs = get_offsets(s, tyname)
+            idx = S('idx', (0, 4, 8))
+            names = 'xyz'
+            A = []
+            c = []
+            for k in range(3):
+                A += [I.ilit('sle', 0, adims[k] - 1), I.ilit('slt', adims[k] - 1, adims[k])]
+                c.append(I.mk_sel(I.ilit('slt', idx[k], 0), sp.Integer(0),
+                                  I.mk_sel(I.ilit('slt', adims[k] - 1, idx[k]), adims[k] - 1, idx[k])))
+            want = stride * lin(c, adims)
+            okk, cex = I.equal_guarded([(g, off) for g, _, off in offs], [((), want)], assume=A)
+            if okk:
+                ctx.ok(R, inst, '%d path(s): in every combination of below / inside / above per axis the cell read is '
+                       '(clamp(x,0,dx-1), clamp(y,0,dy-1), clamp(z,0,dz-1))' % len(offs), A3D)
+                continue
+            ga, ta, gb, tb = cex
+            if I.opaque_atoms(ta):
+                ctx.undecided(R, inst, 'address %s contains an unproved narrowing' % ta, A3D)
+                continue
+            if not I.in_order_vocabulary(list(ga) + list(gb)):
+                ctx.undecided(R, inst, 'a path condition of get() is not a plain coordinate comparison (%s); cannot tell whether the '
+                              'mismatching case is reachable' % ' & '.join(map(str, ga)), A3D)
+                continue
+            region = []
+            G = list(ga) + list(gb) + A
+            for k in range(3):
+                if not I.consistent(G + [I.ilit('sle', 0, idx[k])]):
+                    region.append('%s < 0' % names[k])
+                elif not I.consistent(G + [I.ilit('sle', idx[k], adims[k] - 1)]):
+                    region.append('%s > d%s-1' % (names[k], names[k]))
+                elif not I.consistent(G + [I.ilit('slt', idx[k], 0)]) and not I.consistent(G + [I.ilit('slt', adims[k] - 1, idx[k])]):
+                    region.append('%s inside' % names[k])
+            ctx.violation(R, inst, 'for coordinates with %s the byte offset is %s, but the clamped cell is at %s: a coordinate outside the '
+                          'extent is not clamped to [0, dims-1]' % (', '.join(region) or 'guard ' + ' & '.join(map(str, ga)),
+                                                                    sp.expand(ta), sp.expand(tb)), A3D,
+                          key='%s|%s|ActualArray3D::get|clamp' % (R, A3D),
+                          path=['path/case of get(): %s' % ' & '.join(map(str, ga)), 'case of the definition: %s' % ' & '.join(map(str, gb)),
+                                'offset found   : %s' % sp.expand(ta), 'offset expected: %s' % sp.expand(tb)])
+        except Undecided as e:
+            ctx.undecided(R, inst, str(e), A3D)
 
 
 # ============================================================================================
